@@ -279,8 +279,10 @@ fn handle(op: &str, ty: &str, a: &[f64]) -> Option<String> {
             dispatch_all!(absdiff_t, ty, a, [
                 "P0" => Poly0, "P1" => Poly1, "P2" => Poly2, "P3" => Poly3, "P4" => Poly4, "P5" => Poly5,
                 "P6" => Poly6, "P7" => Poly7, "P8" => Poly8,
-                "LP2" => Log<Poly2>, "IL2" => IntOfLog<Poly2>, "ILP4" => IntOfLogPoly4,
-                "SP1" => Segment<Poly1>,
+                "LP0" => Log<Poly0>, "LP2" => Log<Poly2>, "LP8" => Log<Poly8>,
+                "IL0" => IntOfLog<Poly0>, "IL2" => IntOfLog<Poly2>, "IL8" => IntOfLog<Poly8>, "ILP4" => IntOfLogPoly4,
+                "SP0" => Segment<Poly0>, "SP1" => Segment<Poly1>, "SILP4" => Segment<IntOfLogPoly4>, "SLP2" => Segment<Log<Poly2>>,
+                "SIL2" => Segment<IntOfLog<Poly2>>,
             ])
         }
         "releq" => {
@@ -295,9 +297,28 @@ fn handle(op: &str, ty: &str, a: &[f64]) -> Option<String> {
             dispatch_all!(releq_t, ty, a, [
                 "P0" => Poly0, "P1" => Poly1, "P2" => Poly2, "P3" => Poly3, "P4" => Poly4, "P5" => Poly5,
                 "P6" => Poly6, "P7" => Poly7, "P8" => Poly8,
-                "LP2" => Log<Poly2>, "IL2" => IntOfLog<Poly2>, "ILP4" => IntOfLogPoly4,
-                "SP1" => Segment<Poly1>,
+                "LP0" => Log<Poly0>, "LP2" => Log<Poly2>, "LP8" => Log<Poly8>,
+                "IL0" => IntOfLog<Poly0>, "IL2" => IntOfLog<Poly2>, "IL8" => IntOfLog<Poly8>, "ILP4" => IntOfLogPoly4,
+                "SP0" => Segment<Poly0>, "SP1" => Segment<Poly1>, "SILP4" => Segment<IntOfLogPoly4>, "SLP2" => Segment<Log<Poly2>>,
+                "SIL2" => Segment<IntOfLog<Poly2>>,
             ])
+        }
+        "pwabsdiff1" | "pwreleq1" => {
+            // Piecewise<Poly1>: type "n x m": segments (end, c0, c1) triples
+            let mut it = ty.split('x');
+            let n: usize = it.next()?.parse().ok()?;
+            let m: usize = it.next()?.parse().ok()?;
+            let mk = |v: &[f64]| Piecewise {
+                segments: v.chunks(3).map(|c| Segment { end: c[0], poly: Poly1([c[1], c[2]]) }).collect(),
+            };
+            let x = mk(&a[..3 * n]);
+            let y = mk(&a[3 * n..3 * (n + m)]);
+            let r = if op == "pwabsdiff1" {
+                x.abs_diff_eq(&y, a[3 * (n + m)])
+            } else {
+                x.relative_eq(&y, a[3 * (n + m)], a[3 * (n + m) + 1])
+            };
+            Some(format!("{}", r as u8))
         }
         "pwabsdiff" | "pwreleq" => {
             // Piecewise<Poly0>: type "n x m": segments (end, v) pairs
